@@ -108,7 +108,7 @@ def run_unit(unit, rec):
     # admissible totals: inside the range of totals over the set of best-fit intensity vectors of each target
     adm = []
     for kind, t in T:
-        _, xb0 = O.box_lsq(Abar, t, lo, hi, c0=c0) if n <= 6 else O.box_lsq_certified(Abar, t, lo, hi, c0=c0)[::2]
+        _, xb0, _ = O.box_lsq_bounds(Abar, t, lo, hi, c0=c0)
         V0 = O.poly_vertices(Abar, Abar @ xb0, lo, hi) if n > m else xb0[None]
         if len(V0) == 0:
             V0 = xb0[None]
@@ -156,7 +156,7 @@ def run_unit(unit, rec):
             eps_row = Eps_model.sum(0)
             fobj = lambda z: float(np.sum(eps_row * z * z))  # noqa
             gobj = lambda z: 2 * eps_row * z  # noqa
-            opt, xb = O.box_lsq(Abar, t, lo, hi, c0=c0) if n <= 6 else O.box_lsq_certified(Abar, t, lo, hi, c0=c0)[::2]
+            opt, xb, _ = O.box_lsq_bounds(Abar, t, lo, hi, c0=c0)
             err = float(np.linalg.norm(Abar @ x + c0 - t))
             bad = None
             l1_i = None if L1 is None else float(np.broadcast_to(L1, (len(T_run),))[idx])
